@@ -878,6 +878,10 @@ fn run(args: &[String]) {
     // --show K: do not run the code under test; write case K (concretised) as a record of kind
     // "crash" (used to describe the case at which a whole batch died)
     let show: Option<u64> = arg(args, "--show").map(|s| s.parse().unwrap());
+    // at most this many failure records are written per (family, failure kind, field); all are counted
+    let max_per_class: u64 = arg(args, "--max-per-class").map(|s| s.parse().unwrap()).unwrap_or(250);
+    let mut fail_counts: BTreeMap<String, u64> = BTreeMap::new();
+    let mut failing_docs = 0u64;
     let nsamples: usize = arg(args, "--samples").map(|s| s.parse().unwrap()).unwrap_or(12);
     let always: Vec<String> = arg(args, "--always").map(|s| s.split(',').map(|x| x.to_string()).collect()).unwrap_or_default();
     // --mark FILE: the number of the case being worked on, so that a crash or hang of the whole
@@ -1004,14 +1008,22 @@ fn run(args: &[String]) {
                 sample_fams.insert(fam.clone());
                 samples.push(json!({"fam": fam, "document": text.chars().take(400).collect::<String>(), "expect": expect, "outcome": verdict.outcome}));
             }
+            if !verdict.fails.is_empty() {
+                failing_docs += 1;
+            }
             for f in verdict.fails.iter() {
                 failures += 1;
-                emit_fail(&mut out, id, &fam, d, expect, &hexdoc, &hexsorted, &verdict, f);
+                let n = fail_counts.entry(format!("{}:{}:{}", fam, f.kind, f.field)).or_insert(0);
+                *n += 1;
+                if *n <= max_per_class {
+                    emit_fail(&mut out, id, &fam, d, expect, &hexdoc, &hexsorted, &verdict, f);
+                }
             }
         }
     }
     let fams: BTreeMap<String, Value> = by_fam.iter().map(|(k, v)| (k.clone(), json!({"executed": v[0], "ok": v[1], "err": v[2], "panic": v[3]}))).collect();
     writeln!(out, "{}", json!({"summary": {"cases": cases, "executed": executed, "failures": failures,
+        "failing_documents": failing_docs, "failure_counts": fail_counts,
         "evaluations": ctx.evaluations, "distinct": distinct.len(), "distinct_nontrivial": nontrivial.len(),
         "by_family": fams, "by_expect": by_expect, "samples": samples}})).unwrap();
     out.flush().unwrap();
